@@ -34,7 +34,7 @@ PROFILES = {
 
 DEFAULT_P = dict(zip_load=0.5, multi=0.6, oos=0.12, open_sw=0.15, bb_sw=0.5, trafo3w=0.5, imp=0.5, ward=0.4, xward=0.4,
                  shunt=0.5, gen=0.6, storage=0.4, motor=0.3, asym=0.2, dcline=0.15, mesh=0.5, tap=0.7, second_eg=0.3,
-                 z_sw=0.3, slack_gen=0.15, extra_island=0.0, eg_oos=0.0, ptap=0.3, tabular=0.0, sw_at_oos_bus=False,
+                 z_sw=0.3, slack_gen=0.15, extra_island=0.0, eg_oos=0.0, ptap=0.3, tabular=0.0, sw_at_oos_bus=True,
                  n_hv=(2, 4), n_mv=(2, 6), n_lv=(0, 3), n_gen=(1, 2), sn_choices=(1., 10., 100., 37.5), f_hz=(50., 50., 60.))
 
 
@@ -281,7 +281,7 @@ def rnd_net(seed, profile="full_mix", overrides=None):
         add_tap_table(net, g)
     if not P.get("sw_at_oos_bus", False) and len(net.switch):
         # an open bus-element switch located at an out-of-service bus makes pandapower build an in-service auxiliary bus for a
-        # dead branch (known finding F29: runpp fails / rundcpp returns garbage); keep it out of the general workload
+        # dead branch (finding F29, fixed in /repo by 05ea88b30); the filter is kept as an option only (default: off)
         sw = net.switch
         bad = (sw.et != "b") & ~sw.closed & ~net.bus.in_service.reindex(sw.bus).values
         net.switch.loc[bad, "closed"] = True
